@@ -13,7 +13,9 @@ RULE = ("dynamic-scope topologies: 1..5 schema resources (embedded or Loader doc
         "final $dynamicRef in fragment, resource-relative or pointer form; expected target computed here from the specification's "
         "rule (outermost declaring resource in scope, else the initial target); dag: 2..4 Loader documents referring to one another in a "
         "directed acyclic graph (diamonds), entered from 2..4 use sites whose names / positions are shuffled, so that the order in which "
-        "documents are first met is independent of the evaluation paths. Non-trivial: >= 2 resources; distinct = operation text")
+        "documents are first met is independent of the evaluation paths; 12 % of all of these with the anchor renamed (ASCII names and, rarely, "
+        "non-ASCII letters) and each reference fragment spelled plainly or with percent-escapes (#%6Eode, r2#nod%65, #n%C5%93ud): the decoded "
+        "name is what is looked up, statically and on the dynamic scope. Non-trivial: >= 2 resources; distinct = operation text")
 TRUSTED = ["python oracle implementing the outermost-resource rule for the expected marks"]
 BASE = "http://x.test/dyn/root.json"
 
@@ -414,11 +416,70 @@ def dag(rng):
             "meta": {"expect": expv, "resources": nres, "kinds": kinds, "dag": True, "paths": paths, "entries": entries}}
 
 
+ANCHOR_NAMES = ["N", "node", "n-1", "a_b", "x.y", "T2", "_", "nœud", "é"]
+
+
+def pct(rng, name, every=False):
+    """name as a URI fragment with one / several / all of its characters percent-encoded (upper- or lower-case hex digits): another
+    spelling of the same fragment (RFC 3986 section 2.1: the encoding of a character and the character are equivalent in a fragment)"""
+    out, some = [], False
+    for i, ch in enumerate(name):
+        must = ord(ch) > 0x7f and rng.random() < 0.8
+        if must or every or rng.random() < 0.4:
+            h = "".join("%%%02X" % b for b in ch.encode("utf-8"))
+            out.append(h.lower() if rng.random() < 0.25 else h)
+            some = True
+        else:
+            out.append(ch)
+    if not some:
+        h = "%%%02X" % ord(name[0]) if ord(name[0]) < 0x80 else "".join("%%%02X" % b for b in name[0].encode("utf-8"))
+        out[0] = h
+    return "".join(out)
+
+
+def respell(rng, op):
+    """The same operation with the anchor called something else than `N` and every reference fragment that names it spelled, reference
+    by reference, plainly or with percent-escapes (`#%6Eode`, `r2#nod%65`, `#n%C5%93ud`). Fragments are compared after decoding, at
+    Resolve time (initial target) and at Validate time (search of the dynamic scope), so nothing else changes: the expectations of the
+    operation stay what they were."""
+    name = rng.choice(ANCHOR_NAMES)
+    p_enc = rng.choice([0.5, 0.8, 1.0])
+
+    def frag():
+        if rng.random() < p_enc:
+            return pct(rng, name, every=rng.random() < 0.2)
+        return name
+
+    def walk(v):
+        if isinstance(v, Obj):
+            kvs = []
+            for k, x in v.kvs:
+                if k in ("$dynamicAnchor", "$anchor") and x == "N":
+                    x = name
+                elif k in ("$dynamicRef", "$ref") and isinstance(x, str) and x.endswith("#N"):
+                    x = x[:-1] + frag()
+                else:
+                    x = walk(x)
+                kvs.append((k, x))
+            return Obj(kvs)
+        if isinstance(v, list):
+            return [walk(x) for x in v]
+        return v
+
+    a = dict(op["args"])
+    a["schema"] = walk(a["schema"])
+    a["docs"] = [[u, walk(b)] for u, b in a.get("docs") or []]
+    return {"op": op["op"], "args": a, "meta": dict(op["meta"], respelled=name)}
+
+
 def gen(rng, tier, n):
     ops = [o for o in suite.suite_ops("draft2020-12") if "dynamicRef" in o["meta"]["suite"] or "dynamic" in o["meta"]["suite"]]
     while len(ops) < n:
         r = rng.random()
-        ops.append(chain(rng) if r < 0.46 else fork(rng) if r < 0.6 else dag(rng) if r < 0.68 else topo(rng))
+        o = chain(rng) if r < 0.46 else fork(rng) if r < 0.6 else dag(rng) if r < 0.68 else topo(rng)
+        if rng.random() < 0.12:
+            o = respell(rng, o)
+        ops.append(o)
     return ops
 
 
